@@ -20,7 +20,9 @@ Part F  the Client.Fetch-path DECODER (Model/RecordReader: readFromVersion2, rea
         a wrong checksum (`bad_crc_yields_no_records`).
         `decoders_agree_bytes`: the Conn/Batch reader model of the C02 builder (Model/MessageSetReader + Batch) fed with
         the tokens read off the same bytes (Spec/ByteTokens) delivers the same records — all formats of the property.
-Modelling level of the Conn side: the byte → token step is done by the reference reader (the Go code's field-by-field
+        `decoders_agree_content`: a field-by-field byte-level model of message_reader.go (Model/ConnReader) returns
+        the same CONTENT (keys, values, headers, timestamps, offsets) up to null ≈ empty.
+Modelling level of the C02 token model: the byte → token step is done by the reference reader (the Go code's field-by-field
 reads inside one token are not re-modelled); that step and truncated responses stay tied by correspondence.
 -/
 import KafkaVerif.Lemmas.RecordBatchSpec
@@ -29,6 +31,7 @@ import KafkaVerif.Lemmas.Pages
 import KafkaVerif.Lemmas.RecordReader
 import KafkaVerif.Props.C02
 import KafkaVerif.Lemmas.ByteTokens
+import KafkaVerif.Lemmas.ConnReader
 import KafkaVerif.Gen.RecordConsts
 import KafkaVerif.Gen.RecordLayout
 
@@ -393,6 +396,37 @@ theorem decoders_agree_bytes (c : Crcs) (h1 : ∀ b, c.ieee b < M32) (h2 : ∀ b
     simp only [List.mem_map] at hg
     obtain ⟨d, hd, rfl⟩ := hg
     simp [hnc d hd]
+  rw [hs]
+
+open Model.RecordReader Model.ConnReader in
+/-- `decoders_agree`, CONTENT, at byte level on both sides: the field-by-field model of message_reader.go
+(`Model/ConnReader`: readHeader, readMessageV1 incl. wrappers and extractOffset, readMessageV2 incl. compressed
+batches) applied to a complete valid response returns exactly the records of the reference decoder at or above the
+fetch offset — keys, values, headers, timestamps, absolute offsets, order — up to null ≈ empty (`loosenRec`: this
+path hands out nil for both, as the property allows); and that is what the Client.Fetch model returns from the same
+bytes, minus control batches.  (Wrappers carry a null key, as brokers write them: the Conn code skips 4 bytes there.) -/
+theorem decoders_agree_content (c : Crcs) (h1 : ∀ b, c.ieee b < M32) (h2 : ∀ b, c.castagnoli b < M32)
+    (dec : Int → Bytes → Option Bytes) (es : List Entry) (gs : List (Bool × List Rec)) (h : AllGood c dec es gs)
+    (hkey : ∀ m, Entry.msg m ∈ es → codecOf m.attributes ≠ 0 → m.key = none) (o : Int) :
+    connFetch dec o (encSet c es) = some (((gs.flatMap (·.2)).filter (fun r => o ≤ r.offset)).map loosenRec) ∧
+    ((∀ g ∈ gs, g.1 = false) →
+      connFetch dec o (encSet c es) =
+        some (((clientFetch c dec (encSet c es)).filter (fun r => o ≤ r.offset)).map loosenRec)) := by
+  have hconn := connReadSet_encSet c h1 h2 dec es gs h hkey (encSet c es).length (encSet_length_ge c es)
+  have hfm : ∀ l : List Rec, (l.map loosenRec).filter (fun r => o ≤ r.offset) = (l.filter (fun r => o ≤ r.offset)).map loosenRec := by
+    intro l
+    rw [List.filter_map]
+    rfl
+  have hfirst : connFetch dec o (encSet c es) = some (((gs.flatMap (·.2)).filter (fun r => o ≤ r.offset)).map loosenRec) := by
+    simp only [connFetch, hconn, Option.map_some, hfm]
+  refine ⟨hfirst, fun hnc => ?_⟩
+  rw [hfirst, (decoders_agree_client c h1 h2 dec es gs h).2]
+  have hs : surfaced gs = gs.flatMap (·.2) := by
+    simp only [surfaced]
+    congr 1
+    apply List.filter_eq_self.mpr
+    intro g hg
+    simp [hnc g hg]
   rw [hs]
 
 open Model.RecordReader in
